@@ -84,7 +84,11 @@ def patch(pid, patchfile, tier="quick"):
         wt = os.path.join(root, "wt")
         subprocess.run(["git", "-C", wt, "apply", os.path.abspath(patchfile)], check=True)
         rc, out = run_check(pid, wt, tier)
-        print(out[-3000:])
+        keep = [l for l in out.splitlines() if l.startswith(("VIOLATION", "  invariant=", "KNOWN-FINDING", "HARNESS-ERROR", "VERIF_SEED"))
+                or " quick:" in l or " thorough:" in l]
+        print("\n".join(l[:400] for l in keep[:40]))
+        if rc not in (0, 1):
+            print(out[-2500:])
         print("exit", rc)
     finally:
         subprocess.run(["git", "-C", REPO, "worktree", "remove", "--force", os.path.join(root, "wt")], capture_output=True)
